@@ -3,6 +3,8 @@ package dials
 import (
 	"context"
 	"fmt"
+
+	"github.com/vimeo/dials/internal/verifhook"
 )
 
 type callbackMgr[T any] struct {
@@ -79,8 +81,14 @@ func (cbm *callbackMgr[T]) runCBs(ctx context.Context) {
 			select {
 			case ev = <-cbm.ch:
 			default:
+				if verifhook.Enabled {
+					verifhook.Point("cb.exit", ctx, cbm.ch)
+				}
 				return
 			}
+		}
+		if verifhook.Enabled {
+			verifhook.Point("cb.dequeue", ctx, cbm.ch, ev)
 		}
 		switch e := ev.(type) {
 		case *watchErrorEvent[T]:
